@@ -48,6 +48,7 @@ struct Inst {
   bool raw = false;       // raw check case: sizes of u, v, s, d are independent
   uint64_t mseed = 0;     // raw: seed of the solution mutations (drawn in the child)
   ll scale = 1;  // quantities are `scale` times those of a base instance (for the optimum oracle)
+  bool huge = false;  // scaled so that the totals pass 2^31
   std::string str() const {
     std::ostringstream os;
     if (raw) {
@@ -372,6 +373,8 @@ struct Runner {
     if (dupS) out.count("has_adjacent_duplicate_position");
     if (unsorted) out.count("unsorted");
     if (in.balance) out.count("via_balanceDemand");
+    if (in.scale > 1) out.count("quantities_scaled");
+    if (in.huge) out.count("quantities_total_above_2^31");
     ll ts = sum(in.s), td = sum(in.d);
     out.count(ts == td ? "exact_balance" : (ts < td ? "slack" : "deficit"));
     out.count("sources_" + std::string(in.u.size() <= 4 ? std::to_string(in.u.size()) : (in.u.size() <= 12 ? "5-12" : "13+")));
@@ -528,6 +531,21 @@ static Inst randomInst(vh::Rng &g) {
     ll K = g.chance(1, 2) ? g.range(2, 1000) : g.range(1000, 3000000);
     // balanceDemand does not commute with scaling unless the deficit is spread evenly: only scale balanced ones
     if (!in.balance) { in.scale = K; for (auto &c : in.s) c *= K; for (auto &c : in.d) c *= K; }
+  } else if (qm <= 2 && !in.balance && g.chance(1, 4)) {
+    // huge quantities (the API takes long long: cell and bin areas of a real design exceed 2^31): the totals pass 2^31
+    // and 2^32 while total x position span stays below 2^60, so that no long long cost overflows
+    ll tot = std::max<ll>(1, std::max(sum(in.s), sum(in.d))), lo2 = 0, hi2 = 0;
+    for (ll x : in.u) { lo2 = std::min(lo2, x); hi2 = std::max(hi2, x); }
+    for (ll x : in.v) { lo2 = std::min(lo2, x); hi2 = std::max(hi2, x); }
+    ll span = hi2 - lo2 + 1;
+    ll kmin = (1ll << 31) / tot + 1, kmax = (1ll << 60) / span / tot;
+    if (kmax > kmin) {
+      ll K = g.range(kmin, std::min(kmax, kmin * 40));
+      in.scale = K;
+      in.huge = true;
+      for (auto &c : in.s) c *= K;
+      for (auto &c : in.d) c *= K;
+    }
   }
   return in;
 }
